@@ -50,6 +50,7 @@ ASSUMPTIONS = [
 ]
 
 IMPORTS = "From Verif Require Import Py Shape COO GCXS SArr NpSort SortSearch C10Judge."
+IDX_DTYPES = ["uint8", "uint16", "uint32", "uint64", "int8", "int16", "int32"]
 VALUES = list(range(-3, 6))
 FILLS = [-4, 0, 2, 6]
 CLAUSES = {}      # no domain clause is left (the unpruned-input findings were repaired in round 7)
@@ -68,8 +69,8 @@ def impl_sortk(case):
 def impl_minmaxk(case):
     import numpy as np
     from sparse.numba_backend._coo.common import _compute_minmax_args
-    rc, ic, data, rsize, fill, maxm = case
-    coords = np.array([rc, ic], dtype=np.intp).reshape(2, len(rc))
+    rc, ic, data, rsize, fill, maxm = case[:6]
+    coords = np.array([rc, ic], dtype=np.dtype(case[6]) if len(case) > 6 else np.intp).reshape(2, len(rc))
     ri, rd = _compute_minmax_args(coords, np.array(data, dtype=np.int64), int(rsize), np.int64(fill), bool(maxm))
     return {"ri": [int(v) for v in ri], "rd": [int(v) for v in rd]}
 
@@ -113,20 +114,26 @@ def impl_api(case):
     out = []
     shared = None
     if spec.get("cache"):
-        shared = vlib.build_array(spec)
+        shared = vlib.build_array(spec, idx_dtype=spec.get("idx_dtype"))
         shared.enable_caching()
     for op in ops:
         try:
-            x = shared if shared is not None else vlib.build_array(spec)
+            x = shared if shared is not None else vlib.build_array(spec, idx_dtype=spec.get("idx_dtype"))
             out.append(_run_op(sparse, np, x, op))
         except Exception as ex:  # noqa: BLE001
             out.append(vlib.plain(ex))
     return out
 
 
+def impl_api_multi(cases):
+    """several (spec, ops) batches in one worker call: all arrays of one index dtype, so that the kernels are
+    compiled for that dtype once, not once per worker"""
+    return [impl_api(c) for c in cases]
+
+
 def impl_any(case):
     kind, c = case
-    return {"api": impl_api, "sortk": impl_sortk, "minmaxk": impl_minmaxk}[kind](c)
+    return {"api": impl_api, "api_multi": impl_api_multi, "sortk": impl_sortk, "minmaxk": impl_minmaxk}[kind](c)
 
 
 # ------------------------------------------------------------------ generators
@@ -172,6 +179,14 @@ def gen_minmaxk(rng, n):
             rng.shuffle(ent)                           # unsorted storage order (kernel only)
         cases.append(([e[0] for e in ent], [e[1] for e in ent], [e[2] for e in ent], N, fill, rng.random() < 0.5))
     cases.append(([], [], [], 0, 0, True))
+    # every coordinate dtype, with lines whose stored elements all equal the fill value (finding cd7a310: the
+    # first-gap search started from -1 stored in the coordinate dtype)
+    for k, dt in enumerate(IDX_DTYPES):
+        for maxm in (True, False):
+            cases.append(([0, 0, 1, 2], [0, 1, 1, 1], [7, 7, 7, 7], 4, 7, maxm, dt))
+            cases.append(([0, 1, 2], [0, 0, 0], [3, 3, 3 - 2 * k % 2], 5, 3, maxm, dt))
+            c = cases[rng.randrange(0, n)]
+            cases.append(tuple(c[:6]) + (dt,))
     return cases
 
 
@@ -274,6 +289,22 @@ def gen_api(rng, tier):
         # inputs built on purpose with stored values equal to the fill value (ties with the fill)
         for i in range(per_unpruned[len(sh)]):
             arrays.append((gen_spec(rng, sh, rng.choice(FILLS), rng.choice(["lines", "half", "full"]), True), "coo"))
+    # every index dtype (uint8/16/32/64, int8/16/32) with stored values equal to the fill value: lines that are
+    # entirely fill-equal, partly fill-equal, and ordinary ones (finding cd7a310 needs an unsigned dtype and a
+    # line whose stored elements all equal the fill value)
+    dt_shapes = [(3,), (4,), (2, 3), (3, 2), (4, 4), (2, 2, 3)]
+    reps = 1 if tier == "quick" else 4
+    for dt in IDX_DTYPES:
+        for sh in dt_shapes:
+            for _r in range(reps):
+                fill = rng.choice(FILLS)
+                spec = gen_spec(rng, sh, fill, rng.choice(["lines", "half", "full"]), True)
+                spec["idx_dtype"] = dt
+                arrays.append((spec, "coo"))
+                allfill = gen_spec(rng, sh, fill, rng.choice(["lines", "half"]), True)
+                allfill["data"] = [fill if rng.random() < 0.8 else v for v in allfill["data"]]
+                allfill["idx_dtype"] = dt
+                arrays.append((allfill, "coo"))
     # other formats (pruned inputs only)
     extra = rng.sample(shapes1[1:] + shapes2 + shapes3 + shapes4, 24 if tier == "quick" else 120)
     for sh in extra:
@@ -359,7 +390,7 @@ def replay_line(spec, op, hist=None):
     s, d = op_py(op)
     lines = [
         "import numpy as np, sparse",
-        f"x = sparse.COO(np.array({spec['coords']}, dtype=np.intp).reshape({n}, {nd}).T, "
+        f"x = sparse.COO(np.array({spec['coords']}, dtype='{spec.get('idx_dtype') or 'intp'}').reshape({n}, {nd}).T, "
         f"np.array({spec['data']}, dtype=np.int64), shape={tuple(spec['shape'])}, "
         f"fill_value=np.int64({spec['fill']}), sorted=True, has_duplicates=False)",
     ]
@@ -453,12 +484,29 @@ def campaign(build, tier, seed, report, budget=1):
     mk = gen_minmaxk(rng, nk)
     api = gen_api(rng, tier)
     # one worker pool for everything (each worker pays the import and the JIT compilation once)
-    allc = [("api", c) for c in api] + [("sortk", c) for c in sk] + [("minmaxk", c) for c in mk]
+    plain = [c for c in api if not c[0].get("idx_dtype")]
+    groups = {}
+    for c in api:
+        if c[0].get("idx_dtype"):
+            groups.setdefault(c[0]["idx_dtype"], []).append(c)
+    gkeys = sorted(groups)
+    api = plain + [c for k in gkeys for c in groups[k]]
+    mk_plain = [c for c in mk if len(c) <= 6]
+    mk_dt = sorted((c for c in mk if len(c) > 6), key=lambda c: c[6])
+    mk = mk_plain + mk_dt
+    allc = ([("api_multi", groups[k]) for k in gkeys] + [("api", c) for c in plain] +
+            [("sortk", c) for c in sk] + [("minmaxk", c) for c in mk])
     t_impl = time.time()
-    rall = vlib.run_impl("props.c10", "impl_any", allc, workers=6, per_case_timeout=60.0)
+    rall = vlib.run_impl("props.c10", "impl_any", allc, workers=6, per_case_timeout=120.0)
     t_impl = time.time() - t_impl
     t_judge = time.time()
-    rapi, rsk, rmk = rall[:len(api)], rall[len(api):len(api) + len(sk)], rall[len(api) + len(sk):]
+    ng = len(gkeys)
+    rgroups = []
+    for k, r in zip(gkeys, rall[:ng], strict=True):
+        rgroups += r if isinstance(r, list) and len(r) == len(groups[k]) else [r] * len(groups[k])
+    rapi = rall[ng:ng + len(plain)] + rgroups
+    rsk = rall[ng + len(plain):ng + len(plain) + len(sk)]
+    rmk = rall[ng + len(plain) + len(sk):]
 
     lits = []
     for c, r in zip(sk, rsk, strict=True):
@@ -479,14 +527,17 @@ def campaign(build, tier, seed, report, budget=1):
         out = "None" if "ri" not in r else f"(Some {vpair(vlist(r['ri']), vlist(r['rd']))})"
         lits.append(vpair(vlist(c[0]), vlist(c[1]), vlist(c[2]), vZ(c[3]), vZ(c[4]), vbool(c[5]), out))
         tag("kernel:_compute_minmax_args")
+        if len(c) > 6:
+            tag("kernel_idx_dtype:" + c[6])
     bad = build.judge("c10_minmaxk", IMPORTS, "minmaxk_case", "judge_minmaxk", lits)
     for i, code in bad:
         c = mk[i]
         viol.append({"property": "C10", "op": "_compute_minmax_args", "kind": "representation", "clause": None, "code": code,
-                     "case": dict(reduce_coords=c[0], index_coords=c[1], data=c[2], reduce_size=c[3], fill=c[4], max_mode=c[5]),
+                     "case": dict(reduce_coords=c[0], index_coords=c[1], data=c[2], reduce_size=c[3], fill=c[4], max_mode=c[5],
+                                  idx_dtype=(c[6] if len(c) > 6 else "intp")),
                      "impl": rmk[i],
                      "replay_py": "import numpy as np; from sparse.numba_backend._coo.common import _compute_minmax_args; "
-                                  f"print(_compute_minmax_args(np.array([{c[0]},{c[1]}],dtype=np.intp).reshape(2,{len(c[0])}), "
+                                  f"print(_compute_minmax_args(np.array([{c[0]},{c[1]}],dtype='{c[6] if len(c) > 6 else 'intp'}').reshape(2,{len(c[0])}), "
                                   f"np.array({c[2]},dtype=np.int64), {c[3]}, np.int64({c[4]}), {c[5]}))"})
 
     # ---- API level
@@ -503,6 +554,8 @@ def campaign(build, tier, seed, report, budget=1):
         tag("format:" + spec.get("format", "coo"))
         if _h is not None:
             tag("history:cache_enabled")
+        if spec.get("idx_dtype"):
+            tag("idx_dtype:" + spec["idx_dtype"])
         if spec["coords"] and spec["fill"] in spec["data"]:
             tag("stored_equals_fill")
     bad = build.judge("c10_api", IMPORTS, "api_case", "judge_api", lits, chunk=400)
@@ -543,7 +596,7 @@ def campaign(build, tier, seed, report, budget=1):
     cov["evaluations"] = len(sk) + len(mk) + len(flat)
     cov["kernel_cases"] = {"_sort_coo": len(sk), "_compute_minmax_args": len(mk)}
     cov["api_cases"] = len(flat)
-    cov["distinct_nontrivial"] = len({vlib.digest((s["shape"], s["coords"], s["data"], s["fill"], s.get("format"), list(op), h))
+    cov["distinct_nontrivial"] = len({vlib.digest((s["shape"], s["coords"], s["data"], s["fill"], s.get("format"), s.get("idx_dtype"), list(op), h))
                                       for s, op, _r, h in flat if s["coords"]}) + \
         len({vlib.digest(c) for c in sk if c[0]}) + len({vlib.digest(c) for c in mk if c[0]})
     cov["rule"] = ("kernel: seeded random canonical 2-d inputs (rows empty/partial/prefix/full, value pools of 1-5 values "
